@@ -145,11 +145,15 @@ Adler32(p) == LET n == Len(p)
                   \* b = n + sum (n - i + 1) * p[i]  (mod 65521); weights reduced before multiplying
                   b == (n + SumMod([i \in 1..n |-> ((n - i + 1) % AdlerMod) * p[i] % AdlerMod], 1, n)) % AdlerMod
               IN <<b \div 256, b % 256, a \div 256, a % 256>>                   \* big-endian b:a
+\* RFC 1950 2.2: CMF = CM (8: deflate) + 16 * CINFO (log2 of the window size - 8, 0..7), FLG so that CMF * 256 + FLG is a multiple of 31.
+\* Every window size is a valid stream (a stored block needs no window); the size varies with the payload length.
+ZHdr(n) == CASE n = 1 -> <<8, 29>> [] n = 63 -> <<24, 25>> [] n = 65 -> <<56, 17>> [] n = 300 -> <<104, 5>> [] OTHER -> <<120, 1>>
+ASSUME \A n \in {1, 63, 65, 300, 0} : LET h == ZHdr(n) IN (h[1] * 256 + h[2]) % 31 = 0 /\ h[1] % 16 = 8 /\ h[1] \div 16 <= 7
 Stored(p, blk) ==      \* blocks of at most blk bytes
   LET nb == IF Len(p) = 0 THEN 1 ELSE (Len(p) + blk - 1) \div blk
       piece(k) == SubSeq(p, (k - 1) * blk + 1, IF k * blk < Len(p) THEN k * blk ELSE Len(p))
       block(k) == LET d == piece(k) IN <<IF k = nb THEN 1 ELSE 0>> \o LEn(Len(d), 2) \o LEn(65535 - Len(d), 2) \o d
-  IN <<120, 1>> \o Flat([k \in 1..nb |-> block(k)]) \o Adler32(p)
+  IN ZHdr(Len(p)) \o Flat([k \in 1..nb |-> block(k)]) \o Adler32(p)
 \* the reader of such streams (for the round-trip check)
 RECURSIVE Inflate(_, _)
 Inflate(z, at) == LET fin == z[at]   n == z[at + 1] + 256 * z[at + 2] IN
@@ -180,7 +184,8 @@ DataImage(cl, kind, n, blk) ==
 Sizes == {0, 1, 63, 64, 65, 300, 4096}
 InterpStr == <<47, 108, 105, 98, 47, 108, 100, 46, 115, 111, 0>>                 \* "/lib/ld.so"
 \* the .interp contents may be padded behind the terminator (alignment padding; a further string): the name ends at the first NUL
-InterpData(n) == InterpStr \o (CASE n % 4 = 0 -> <<>> [] n % 4 = 1 -> <<0>> [] n % 4 = 2 -> <<0, 0, 0>> [] OTHER -> <<120, 0, 0>>)
+InterpUtf8 == <<47, 108, 105, 98, 47, 108, 100, 45, 195, 169, 46, 115, 111, 0>>     \* "/lib/ld-e'.so" (UTF-8: e-acute = C3 A9)
+InterpData(n) == (IF n \in {64, 300} THEN InterpUtf8 ELSE InterpStr) \o (CASE n % 4 = 0 -> <<>> [] n % 4 = 1 -> <<0>> [] n % 4 = 2 -> <<0, 0, 0>> [] OTHER -> <<120, 0, 0>>)
 
 (* --------------------------------- the machine -------------------------- *)
 Init ==
